@@ -318,6 +318,16 @@ def decorator_integrity(pm, ctx, rid):
     # (3) the raise is controlled by `not satisfied`, where satisfied is the disjunction of is_satisfied_by(value)
     raises = [r for r in ast.walk(loop) if isinstance(r, ast.Raise)]
     sat_calls = [c for c in ast.walk(loop) if isinstance(c, ast.Call) and isinstance(c.func, ast.Attribute) and c.func.attr == "is_satisfied_by"]
+    # a verdict memoised on the value is shared by all values that compare equal: True, 1 and 1.0 hash to the same key although `bool`, `Integral` and
+    # `Real` constraints tell them apart - an out-of-domain value inherits "valid" (or the reverse) from an earlier call
+    cu = pm.unit("gemclus._constraints")
+    memo = [fn for fn in ast.walk(cu.tree) if isinstance(fn, ast.FunctionDef) and any(str(norm_src(d.func if isinstance(d, ast.Call) else d)).split(".")[-1] in ("lru_cache", "cache") for d in fn.decorator_list)
+            and any(isinstance(c, ast.Call) and isinstance(c.func, ast.Attribute) and c.func.attr == "is_satisfied_by" for c in ast.walk(fn))]
+    if memo:
+        ctx.violation(rid, where, "constraint_params", norm_src(memo[0].decorator_list[0]), f"the validation verdict of `{memo[0].name}` is memoised on the argument value: values that "
+                      "compare equal but have different types (True / 1 / 1.0) share one verdict, so an out-of-domain value can be accepted (or an in-domain one "
+                      "rejected) depending on earlier calls", line=memo[0].lineno, site=site + ": verdict computed per call")
+        return
     if not sat_calls:
         ctx.unrecognised(rid, site, "no is_satisfied_by call in the validation loop")
         return
@@ -346,6 +356,19 @@ def decorator_integrity(pm, ctx, rid):
         elif (neg and br is False) or (pos and br is True):
             guard_ok = False
             why = "the error is raised when the constraint IS satisfied"
+    if flag is None:
+        # no flag: the raise is directly under `not any(<c>.is_satisfied_by(value) for <c> in ...)`
+        for t, br in conds:
+            tt = t.operand if isinstance(t, ast.UnaryOp) and isinstance(t.op, ast.Not) else None
+            direct = tt if tt is not None else t
+            if isinstance(direct, ast.Call) and isinstance(direct.func, ast.Name) and direct.func.id == "any" and len(direct.args) == 1 \
+                    and isinstance(direct.args[0], (ast.GeneratorExp, ast.ListComp)) and any(c_ is direct.args[0].elt for c_ in sat_calls):
+                inner = [(t, br)]
+                if (tt is not None and br is True) or (tt is None and br is False):
+                    guard_ok = True
+                else:
+                    guard_ok = False
+                    why = "the error is raised when the constraint IS satisfied"
     extra = [c for c in conds if c not in inner and not (norm_src(c[0]) in (f"{pname} not in {table}",) and c[1] is False)
              and not (norm_src(c[0]) == f"{pname} in {table}" and c[1] is True)]
     if guard_ok is True and extra:
@@ -353,6 +376,8 @@ def decorator_integrity(pm, ctx, rid):
         why = f"the error additionally requires {[norm_src(c[0]) for c in extra]}"
     if guard_ok is None:
         ctx.unrecognised(rid, site, "the guard of the raise is not `not <satisfied flag>`")
+    elif guard_ok and flag is None:
+        ctx.ok(rid, site + ": InvalidParameterError raised iff no alternative constraint is satisfied")
     elif guard_ok:
         # the flag must be a disjunction accumulated over all constraints: `flag = flag or c.is_satisfied_by(v)` / any(...)
         v = flag_assign.value
